@@ -468,13 +468,22 @@ func (r *recv) apply(m midi.Event) {
 var barrier = &input.InputEvent{Source: handler, Event: evdev.InputEvent{Type: evdev.EV_SYN}}
 
 func (e *Explorer) replayCheck(w *worker, n *node, id int32) {
+	if !e.replayOnce(w, n, id, 120*time.Second, false) {
+		// a stall on an overloaded machine is not a verdict: confirm on a fresh channel pair with a long deadline
+		w2 := newWorker()
+		e.replayOnce(w2, n, id, 600*time.Second, true)
+	}
+}
+
+// replayOnce returns false if ProcessEvents did not return within the deadline (reported only when final).
+func (e *Explorer) replayOnce(w *worker, n *node, id int32, deadline time.Duration, final bool) bool {
 	s := e.S
 	evs := e.witness(id)
 	out, sigs := w.out, w.sigs
 	dev, err := s.D.Build(out, sigs)
 	if err != nil {
 		e.Res.Infra = err.Error()
-		return
+		return true
 	}
 	in := make(chan *input.InputEvent)
 	done := make(chan struct{})
@@ -505,7 +514,7 @@ func (e *Explorer) replayCheck(w *worker, n *node, id int32) {
 	returned := true
 	select {
 	case <-done:
-	case <-time.After(60 * time.Second):
+	case <-time.After(deadline):
 		returned = false
 	}
 	pull()
@@ -513,9 +522,11 @@ func (e *Explorer) replayCheck(w *worker, n *node, id int32) {
 	e.replays.Add(1)
 	hist := e.witnessStrings(id)
 	if !returned {
-		e.Res.Violate("processing-does-not-end", s.D.Name+"/"+s.D.Mode, "ProcessEvents had not returned 60 s after its event stream was closed",
-			map[string]interface{}{"scenario": s.D.Name, "mode": s.D.Mode, "history": hist, "toml": s.D.TOML()})
-		return
+		if final {
+			e.Res.Violate("processing-does-not-end", s.D.Name+"/"+s.D.Mode, "ProcessEvents had not returned 10 minutes after its event stream was closed (second attempt; the first waited 2 minutes)",
+				map[string]interface{}{"scenario": s.D.Name, "mode": s.D.Mode, "history": hist, "toml": s.D.TOML()})
+		}
+		return false
 	}
 	var zero [8]byte
 	h := chain(zero, all[:n1])
@@ -526,7 +537,7 @@ func (e *Explorer) replayCheck(w *worker, n *node, id int32) {
 		e.Res.Violate("real-loop-differs-from-explored-path", s.D.Name+"/"+s.D.Mode,
 			"a fresh device driven through the real ProcessEvents with the witness history emitted different messages than the explored (cloned) path: device behaviour depends on something outside its own state",
 			map[string]interface{}{"scenario": s.D.Name, "mode": s.D.Mode, "history": hist, "real_output": msgStrings(all[:n1]), "toml": s.D.TOML()})
-		return
+		return true
 	}
 	if e.S.NewMons != nil && checkDisconnect {
 		r := &recv{sounding: map[[2]byte]bool{}}
@@ -545,6 +556,7 @@ func (e *Explorer) replayCheck(w *worker, n *node, id int32) {
 			}
 		}
 	}
+	return true
 }
 
 var checkDisconnect = true
@@ -574,10 +586,10 @@ func (e *Explorer) watchdog(ws []*worker) {
 		now := time.Now().UnixNano()
 		for _, w := range ws {
 			b := w.busySince.Load()
-			if b != 0 && now-b > int64(90*time.Second) {
+			if b != 0 && now-b > int64(600*time.Second) {
 				bw, _ := w.busyWhat.Load().(busy)
 				what := fmt.Sprintf("%v", e.witnessStrings(bw.id, bw.ev))
-				e.Res.Violate("event-processing-hangs", e.S.D.Name+"/"+e.S.D.Mode, "processing one input event did not finish within 90 s (normal cost: microseconds): "+what,
+				e.Res.Violate("event-processing-hangs", e.S.D.Name+"/"+e.S.D.Mode, "processing one input event did not finish within 600 s (normal cost: microseconds): "+what,
 					map[string]interface{}{"scenario": e.S.D.Name, "mode": e.S.D.Mode, "history_then_event": what, "toml": e.S.D.TOML()})
 				e.Res.Exhaustive = false
 				e.Res.Write(*outPath)
